@@ -605,7 +605,7 @@ def check_add_error(prog, run, r):
         val = None
         for x in env.get(boolx.STMTS, ()):
             if isinstance(x, ast.Assign) and ast.unparse(x.targets[0]) == "%s.path" % err:
-                val = ast.unparse(boolx.path_value(env.get(boolx.STMTS, ()), x, x.value, atoms))
+                val = ast.unparse(boolx.path_value(env.get(boolx.STMTS, ()), x, boolx.path_subst(x.value, boolx.path_env(env.get(boolx.STMTS, ()), x)), atoms))
         if kind == "raise" or not appended or val != path:
             cond = ", ".join("%s=%s" % kv for kv in sorted(atoms.items()))
             run.report(r, "%s:ResolutionContext.add_error:path-not-taken" % WRAP, ae.where(st) if st is not None else ae.where(),
